@@ -61,6 +61,7 @@ structure FreeNodeOk (b : Arena) (h : Shape) (i : Nat) (b' : Arena) : Prop where
   stamp : ∀ s, b.slot i = some s → ∃ s', b'.slot i = some s' ∧
     s'.stamp = (if s.stamp < 32767 then -s.stamp - 1 else -s.stamp)
   live : ∀ j, Live b' j ↔ (Live b j ∧ j ≠ i)
+  payload : ∀ j s v, j ≠ i → b.slot j = some s → s.data = .data v → ∃ s', b'.slot j = some s' ∧ s'.data = .data v
 
 theorem Rep.freeNode {b : Arena} {h : Shape} (r : Rep b h) (i : Nat) (hi : Live b i) (hpar : h.par i = none)
     (hkids : h.kids i = []) : ∃ b', freeNode b (b.idAt i) = .done b' () ∧ FreeNodeOk b h i b' := by
@@ -109,7 +110,8 @@ theorem Rep.freeNode {b : Arena} {h : Shape} (r : Rep b h) (i : Nat) (hi : Live 
     have hid : ∀ k, k ≠ i → Live b k → b'.idAt k = b.idAt k := by
       intro k hk ⟨sk, hsk, _⟩
       rw [idAt_of_slot hsk, idAt_of_slot (show b'.slot k = some sk by rw [hslot, if_neg (Ne.symm hk)]; exact hsk)]
-    refine ⟨⟨?_, ?_, ⟨?_, ?_, ?_, ?_, ?_⟩, ?_, ?_, r.kidsNodup, r.acyclic, ?_⟩, ?_, ?_, hlive⟩
+    refine ⟨⟨?_, ?_, ⟨?_, ?_, ?_, ?_, ?_⟩, ?_, ?_, r.kidsNodup, r.acyclic, ?_⟩, ?_, ?_, hlive,
+      fun j sj v hj hsj hd => ⟨sj, by rw [hslot, if_neg (Ne.symm hj)]; exact hsj, hd⟩⟩
     · intro j s' hs'
       rw [hslot] at hs'; split at hs'
       · cases hs'; exact ⟨hlo, by show Stamp.asRemoved s.stamp ≤ 32767; omega⟩
@@ -206,7 +208,20 @@ theorem Rep.freeNode {b : Arena} {h : Shape} (r : Rep b h) (i : Nat) (hi : Live 
       rw [this] at hlf; cases hlf
     have hjlidx : h.free[h.free.length - 1]? = some jl := by
       rw [List.getLast?_eq_getElem?] at hlf; exact hlf
-    refine ⟨⟨?_, ?_, ⟨?_, ?_, ?_, ?_, ?_⟩, ?_, ?_, r.kidsNodup, r.acyclic, ?_⟩, ?_, ?_, hlive⟩
+    have hsjfree : ∃ nf, sj.data = .nextFree nf := by
+      obtain ⟨kk, hkk⟩ := List.getElem?_of_mem hjl
+      obtain ⟨s2, hs2, hd2⟩ := r.free.link kk jl hkk
+      rw [hsj] at hs2; cases hs2
+      exact ⟨_, hd2⟩
+    refine ⟨⟨?_, ?_, ⟨?_, ?_, ?_, ?_, ?_⟩, ?_, ?_, r.kidsNodup, r.acyclic, ?_⟩, ?_, ?_, hlive, ?_⟩
+    rotate_right
+    · intro j s2 v hj hs2 hd
+      by_cases hjj : jl = j
+      · subst hjj
+        rw [hsj] at hs2; cases hs2
+        obtain ⟨nf, hnf⟩ := hsjfree
+        rw [hnf] at hd; cases hd
+      · exact ⟨s2, by rw [hslot, if_neg hjj, if_neg (Ne.symm hj)]; exact hs2, hd⟩
     · intro j s' hs'
       rw [hslot] at hs'
       split at hs'
